@@ -1197,6 +1197,11 @@ class LdapObject:
         """Updates LDAP record."""
         dn = self.dn(ident)
         new_entry = self.to_entry(attrs)
+        # A list attribute given as an empty list is emptied (to_entry leaves
+        # it out, and what is left out is neither fetched nor deleted).
+        for ldap_field, obj_field, field_type in self.schema():
+            if isinstance(field_type, list) and attrs.get(obj_field) == []:
+                new_entry.setdefault(ldap_field, [])
         self.admin.update(dn, new_entry)
 
     def replace(self, ident, attrs):
